@@ -163,11 +163,14 @@ CHECKS["C13"] = dict(
     technique="Coq proof (frame theorem over the engine) + vm_compute correspondence of the Hexital model + falsifier", design="5/C13")
 CHECKS["C14"] = dict(
     text="Theorems: purge removes every entry of the indicator tree at any depth and nothing else (timestamps, OHLCV, other entries "
-         "untouched); calculate() is idempotent for leaf indicators with discharged obligations. " + ENGINE_TIE +
+         "untouched); for leaf indicators with discharged obligations calculate() is idempotent, recalculate() reproduces the store "
+         "it replaced, calculate_index on a computed index (+/-) leaves the store unchanged, and every program over append/calculate/"
+         "purge/recalculate/such recomputations ends in a state on which calculate() equals one calculate() over all candles appended. " + ENGINE_TIE +
          "(incl. calculate/calculate_index/recalculate/purge sequences; every operation program also runs on the Hexital model, check_hx). Falsifier: idempotence, recalculate fixpoint, purge exactness, calculate_index "
          "on computed indices (+/-), and random programs over append/calculate/purge/recalculate/calculate_index/add/remove on Hexitals "
          "(also members sharing helpers) ending in calculate() = batch state.",
-    note="Convergence of arbitrary operation programs to the batch state is decided by the falsifier. Axioms: none.",
+    note="For composite indicators and for add/remove on a Hexital, convergence of operation programs to the batch state is decided by "
+         "correspondence + falsifier. Axioms: none.",
     technique="Coq proof (purge exactness, idempotence via canonical semantics) + vm_compute correspondence + program falsifier", design="5/C14")
 CHECKS["C16"] = dict(
     text="Theorems for all 16 movement and 4 pattern functions, every argument, every candle list (whatever readings it carries) and every "
